@@ -58,6 +58,9 @@ pub struct ClientSpec {
 
 #[derive(Clone, Debug, Serialize, Deserialize)]
 pub struct Scenario {
+    /// serve over HTTPS (HTTP/2 clients then fall back to HTTP/1.1 inside TLS)
+    #[serde(default)]
+    pub tls: bool,
     pub detached: bool,
     pub clients: Vec<ClientSpec>,
     pub server_workers: u8,
@@ -106,7 +109,14 @@ fn client_spec() -> impl Strategy<Value = ClientSpec> {
 }
 
 pub fn scenario(max_clients: usize) -> impl Strategy<Value = Scenario> {
-    (any::<bool>(), proptest::collection::vec(client_spec(), 1..=max_clients), 1u8..5).prop_map(|(detached, clients, server_workers)| Scenario { detached, clients, server_workers })
+    (prop::bool::weighted(0.25), any::<bool>(), proptest::collection::vec(client_spec(), 1..=max_clients), 1u8..5).prop_map(|(tls, detached, mut clients, server_workers)| {
+        if tls {
+            for c in clients.iter_mut() {
+                c.proto = Proto::H1;
+            }
+        }
+        Scenario { tls, detached, clients, server_workers }
+    })
 }
 
 pub const BIG_SIZE: u32 = 4 << 20;
@@ -150,8 +160,12 @@ pub enum ClientResult {
 }
 
 pub async fn run_h1(addr: std::net::SocketAddr, log: Arc<EventLog>, c: ClientSpec, id: u64) -> Result<ClientResult, Failure> {
+    run_h1_with(addr, false, log, c, id).await
+}
+
+pub async fn run_h1_with(addr: std::net::SocketAddr, tls: bool, log: Arc<EventLog>, c: ClientSpec, id: u64) -> Result<ClientResult, Failure> {
     tokio::time::sleep(Duration::from_millis(c.start_delay_ms as u64)).await;
-    let mut conn = http1::Conn::connect(addr).await.map_err(|e| Failure::new("connect", e.to_string()))?;
+    let mut conn = http1::Conn::connect_with(addr, tls).await.map_err(|e| Failure::new("connect", e.to_string()))?;
     let (req, head_len) = request_for(&c, id);
     let close = |conn: http1::Conn, rst: bool| {
         if rst {
@@ -289,12 +303,17 @@ pub fn check_scenario(rt: &tokio::runtime::Runtime, s: &Scenario, st: &mut Stats
             default_request_body_max_bytes: 1 << 20,
             ..Default::default()
         };
-        start_server(life_api(), LifeCtx::default(), cfg, None).map_err(|e| Failure::new("server-start", e))?
+        if s.tls {
+            crate::dynapi::start_server_tls(life_api(), LifeCtx::default(), cfg).map_err(|e| Failure::new("server-start", e))?
+        } else {
+            start_server(life_api(), LifeCtx::default(), cfg, None).map_err(|e| Failure::new("server-start", e))?
+        }
     };
     let addr = server.local_addr();
+    let tls = s.tls;
     let log = server.app_private().log.clone();
     let mode = if s.detached { "detached" } else { "cancel-on-disconnect" };
-    let desc = format!("mode {} clients {:?}", mode, s.clients.iter().map(|c| format!("{:?}/{:?}/{:?}{}{}", c.kind, c.proto, c.point, if c.rst { "/rst" } else { "" }, if c.drop_ctx { "/dropctx" } else { "" })).collect::<Vec<_>>());
+    let desc = format!("{}mode {} clients {:?}", if s.tls { "https " } else { "" }, mode, s.clients.iter().map(|c| format!("{:?}/{:?}/{:?}{}{}", c.kind, c.proto, c.point, if c.rst { "/rst" } else { "" }, if c.drop_ctx { "/dropctx" } else { "" })).collect::<Vec<_>>());
     let result: Result<(), Failure> = rt.block_on(async {
         // stayers are released a little after everybody has done their part
         let mut handles = vec![];
@@ -303,7 +322,7 @@ pub fn check_scenario(rt: &tokio::runtime::Runtime, s: &Scenario, st: &mut Stats
             let l = log.clone();
             handles.push(tokio::spawn(async move {
                 match c.proto {
-                    Proto::H1 => run_h1(addr, l, c, id).await,
+                    Proto::H1 => run_h1_with(addr, tls, l, c, id).await,
                     _ => run_h2(addr, l, c, id).await,
                 }
             }));
@@ -364,6 +383,9 @@ pub fn check_scenario(rt: &tokio::runtime::Runtime, s: &Scenario, st: &mut Stats
         st.eval();
         st.count("scenarios");
         st.count(if s.detached { "mode:detached" } else { "mode:cancel" });
+        if s.tls {
+            st.count("https_scenarios");
+        }
         let mut leaver_after_entry = 0;
         for (i, c) in s.clients.iter().enumerate() {
             let id = i as u64 + 1;
@@ -437,7 +459,7 @@ pub fn check_scenario(rt: &tokio::runtime::Runtime, s: &Scenario, st: &mut Stats
             st.nontrivial(hash_of(&format!("{:?}", s)));
         }
         // the server keeps serving
-        let h = http1::oneshot(addr, &http1::build_request("GET", "/health", &[], None), false, Duration::from_secs(10))
+        let h = http1::oneshot_with(addr, tls, &http1::build_request("GET", "/health", &[], None), false, Duration::from_secs(10))
             .await
             .map_err(|e| Failure::new("health-after-scenario", format!("{}: {}", e, trace())))?;
         ensure!(h.status == 200, "health-after-scenario", "health {}: {}", h.status, trace());
